@@ -216,7 +216,26 @@ def _answers(g, n, arcs, which):
                 if r != g.is_d_separated(N[y], N[x], list(zs)) or r != g.is_d_separated([N[x]], {N[y]}, zs):
                     r = 'asym'
                 b1.append(r)
-                b2.append(g.is_minimally_d_separated(N[x], N[y], zs))
+                m = g.is_minimally_d_separated(N[x], N[y], zs)
+                # the same queries with Node objects (end points and / or members of the conditioning set), lists and tuples
+                form = (x + 2 * y + len(Z)) % 4
+                if form == 0:
+                    alt = (g.get_node(N[x]), g.get_node(N[y]), {g.get_node(N[z]) for z in Z})
+                elif form == 1:
+                    alt = (N[x], N[y], [g.get_node(N[z]) for z in Z])
+                elif form == 2:
+                    alt = (g.get_node(N[x]), N[y], tuple(N[z] for z in Z))
+                else:
+                    alt = (N[y], N[x], frozenset(zs))
+                try:
+                    if g.is_minimally_d_separated(*alt) != m or bool(g.is_d_separated(*alt)) != bool(r):
+                        m = 'asym'
+                except Exception:  # noqa: BLE001
+                    m = 'asym'
+                if m == 'asym':
+                    t += [998]
+                    m = False
+                b2.append(m)
             if 'asym' in b1:
                 t += [999]
                 b1 = [bool(b) and b != 'asym' for b in b1]
